@@ -61,6 +61,7 @@ class Ctx:
         self.budget_s = budget_s
         self.case_no = 0
         self.shrinking = False  # set by run_hypothesis when the shrink phase is on
+        self.replaying = False  # replay of a recorded case: known findings are not tolerated, the case is re-judged as is
 
     # -- accounting -------------------------------------------------------------------------
     def event(self, label, n=1):
@@ -91,7 +92,7 @@ class Ctx:
 
         record = dict(record)
         record["property"] = self.prop
-        hit = known.match(self.prop, record)
+        hit = None if self.replaying else known.match(self.prop, record)
         if hit is not None:
             self.known[hit] += 1
             self.counters["excluded_by_known_finding"] += 1
